@@ -27,10 +27,19 @@ macro_rules! dr {
     };
 }
 cross!(dr;
-    [F8x1, F8x2, F8x3, F8x9, F8x17, F16x1, F16x3, F32x1, F32x3, F64x1, F64x2, F64x3, F128x1, F128x2, Fszx1, Fszx2, F32x40, Bvd, Bv];
-    [F8x1, F8x2, F8x3, F8x9, F8x17, F16x1, F16x3, F32x1, F32x3, F64x1, F64x2, F64x3, F128x1, F128x2, Fszx1, Fszx2, F32x40, Bvd, Bv]);
+    [F8x1, F8x2, F8x3, F8x9, F8x17, F16x1, F16x3, F32x1, F32x3, F64x1, F64x2, F64x3, F128x1, F128x2, Fszx1, Fszx2, F32x80, F16x10, Bvd, Bv];
+    [F8x1, F8x2, F8x3, F8x9, F8x17, F16x1, F16x3, F32x1, F32x3, F64x1, F64x2, F64x3, F128x1, F128x2, Fszx1, Fszx2, F32x80, F16x10, Bvd, Bv]);
 
 /// `l.div_rem(&r)` -> (quotient, remainder)
 pub fn div_rem(l: &Z, r: &Z) -> (Z, Z) {
     z_match!(l, a => z_match!(r, b => { let (q, m) = a.dr(b); (q.wrap(), m.wrap()) }))
+}
+
+/// `&a op &a` with BOTH operands being the very same object (aliased references).
+pub fn apply_self(l: &Z, op: BinOp) -> Z {
+    z_match!(l, a => match op {
+        BinOp::Div => (a / a).wrap(),
+        BinOp::Rem => (a % a).wrap(),
+        _ => unreachable!("wrong table"),
+    })
 }
